@@ -68,6 +68,9 @@ pub enum Req {
     GetPeers { d: u8 },
     /// a peer's head report naming one author at one timestamp
     HasNews { d: u8, a: u8, ts: u64 },
+    /// list the documents (with capability kind) or the author keys of the store
+    ListDocs,
+    ListAuthors,
 }
 
 #[derive(Serialize, Deserialize, Clone, Debug)]
@@ -144,6 +147,8 @@ enum Reply {
     Store(Result<iroh_docs::store::Store, String>),
     Policy(Result<Vec<u8>, String>),
     Peers(Result<Option<Vec<[u8; 32]>>, String>),
+    /// (id, kind: 1 write / 2 read / 0 for authors), sorted
+    List(Result<Vec<([u8; 32], u8)>, String>),
 }
 
 type Fut = Pin<Box<dyn Future<Output = Reply>>>;
@@ -158,6 +163,7 @@ enum Expect {
     State { handles: usize, sync: bool, subs: usize },
     Policy(Vec<u8>),
     Peers(Option<Vec<[u8; 32]>>),
+    List(Vec<([u8; 32], u8)>),
     Secret(bool),
     AnyOk,
     Store,
@@ -211,9 +217,9 @@ impl Scenario for ActorScen {
                 *rng.pick(&[0u64, 1, 2, 3, 6, 7, 12, 13, 26, 33, 34, 36, 38, 38, 38, 38, 39])
             } else if self.crash_focus {
                 // opens, writes, deletions, remote inserts, reconciliation, reads that commit, flushes
-                *rng.pick(&[0u64, 0, 1, 6, 12, 13, 14, 15, 16, 17, 18, 19, 20, 21, 24, 25, 29, 26, 38, 39, 39, 40, 42])
+                *rng.pick(&[0u64, 0, 1, 6, 12, 13, 14, 15, 16, 17, 18, 19, 20, 21, 24, 25, 29, 26, 38, 39, 39, 40, 42, 46, 47])
             } else {
-                rng.below(46)
+                rng.below(48)
             };
             let req = match roll {
                 0..=5 => Req::Open { d, sync: rng.chance(1, 2), sub: rng.chance(1, 4) },
@@ -236,13 +242,15 @@ impl Scenario for ActorScen {
                 42 | 43 => Req::RegisterPeer { d, peer: rng.below(7) as u8 },
                 44 => Req::GetPeers { d },
                 45 => Req::HasNews { d, a: rng.below(3) as u8, ts: rng.range(0, 14) },
+                46 => Req::ListDocs,
+                47 => Req::ListAuthors,
                 _ => if i > n / 2 && rng.chance(1, 3) && !self.crash_focus { Req::Shutdown } else { Req::Flush },
             };
             if matches!(req, Req::Shutdown) {
                 if shut { continue; }
                 shut = true;
             }
-            let is_read = matches!(req, Req::GetExact { .. } | Req::GetState { .. } | Req::GetPolicy { .. } | Req::GetPeers { .. } | Req::HasNews { .. });
+            let is_read = matches!(req, Req::GetExact { .. } | Req::GetState { .. } | Req::GetPolicy { .. } | Req::GetPeers { .. } | Req::HasNews { .. } | Req::ListDocs | Req::ListAuthors);
             if is_read && rng.chance(1, 5) {
                 steps.push(AStep::SendDropReply { client, req });
             } else {
@@ -362,6 +370,38 @@ fn submit(h: &SyncHandle, req: &Req, streams: &mut Vec<Stream>, idx: usize, expe
         Req::GetPolicy { d } => Box::pin(async move { Reply::Policy(e2s(h.get_download_policy(w.doc_id(d)).await).map(|p| postcard::to_stdvec(&p).unwrap_or_default())) }),
         Req::RegisterPeer { d, peer } => Box::pin(async move { Reply::Unit(e2s(h.register_useful_peer(w.doc_id(d), w.peers[peer as usize]).await)) }),
         Req::GetPeers { d } => Box::pin(async move { Reply::Peers(e2s(h.get_sync_peers(w.doc_id(d)).await)) }),
+        Req::ListDocs => Box::pin(async move {
+            let (tx, mut rx) = irpc::channel::mpsc::channel::<RpcResult<iroh_docs::api::protocol::ListResponse>>(64);
+            if let Err(e) = h.list_replicas(tx).await {
+                return Reply::List(Err(format!("{e:#}")));
+            }
+            let mut out = Vec::new();
+            loop {
+                match rx.recv().await {
+                    Ok(Some(Ok(r))) => out.push((r.id.to_bytes(), match r.capability { iroh_docs::CapabilityKind::Write => 1u8, iroh_docs::CapabilityKind::Read => 2 })),
+                    Ok(Some(Err(e))) => return Reply::List(Err(format!("{e:?}"))),
+                    Ok(None) | Err(_) => break,
+                }
+            }
+            out.sort();
+            Reply::List(Ok(out))
+        }),
+        Req::ListAuthors => Box::pin(async move {
+            let (tx, mut rx) = irpc::channel::mpsc::channel::<RpcResult<iroh_docs::api::protocol::AuthorListResponse>>(64);
+            if let Err(e) = h.list_authors(tx).await {
+                return Reply::List(Err(format!("{e:#}")));
+            }
+            let mut out = Vec::new();
+            loop {
+                match rx.recv().await {
+                    Ok(Some(Ok(r))) => out.push((r.author_id.to_bytes(), 0u8)),
+                    Ok(Some(Err(e))) => return Reply::List(Err(format!("{e:?}"))),
+                    Ok(None) | Err(_) => break,
+                }
+            }
+            out.sort();
+            Reply::List(Ok(out))
+        }),
         Req::HasNews { d, a, ts } => {
             let mut heads = iroh_docs::AuthorHeads::default();
             heads.insert(w.author_id(a), ts);
@@ -593,6 +633,18 @@ fn model_apply(m: &mut [MDoc], req: &Req, clock: u64, alive: &mut bool, stream_e
             let w = world();
             Expect::Peers(if dm.peers.is_empty() { None } else { Some(dm.peers.iter().map(|p| w.peers[*p as usize]).collect()) })
         }
+        Req::ListDocs => {
+            let w = world();
+            let mut v: Vec<([u8; 32], u8)> = m.iter().enumerate().filter_map(|(d, dm)| dm.cap.map(|wr| (w.doc_id(d as u8).to_bytes(), if wr { 1u8 } else { 2 }))).collect();
+            v.sort();
+            Expect::List(v)
+        }
+        Req::ListAuthors => {
+            let w = world();
+            let mut v: Vec<([u8; 32], u8)> = (0..2).map(|a| (w.author_id(a).to_bytes(), 0u8)).collect();
+            v.sort();
+            Expect::List(v)
+        }
         Req::HasNews { d, a, ts } => {
             let dm = &m[*d as usize];
             if dm.cap.is_none() {
@@ -641,6 +693,7 @@ fn check_reply(idx: usize, req: &Req, expect: &Expect, reply: Reply) -> Res<Opti
         Reply::Store(r) => r.is_ok(),
         Reply::Policy(r) => r.is_ok(),
         Reply::Peers(r) => r.is_ok(),
+        Reply::List(r) => r.is_ok(),
     };
     match (expect, reply) {
         (Expect::Any, _) => Ok(None),
@@ -655,6 +708,7 @@ fn check_reply(idx: usize, req: &Req, expect: &Expect, reply: Reply) -> Res<Opti
             if is_ok { Ok(None) } else { Err(bad(format!("failed ({r:?}) although all earlier requests make it valid").chars().take(400).collect())) }
         }
         (Expect::Bool(b), Reply::Bool(Ok(g))) => if g == *b { Ok(None) } else { Err(bad(format!("returned {g}, the earlier requests say {b}"))) },
+        (Expect::List(want), Reply::List(Ok(g))) => if g == *want { Ok(None) } else { Err(bad(format!("listed {} items, the earlier requests give {} (or kinds differ)", g.len(), want.len()))) },
         (Expect::Policy(want), Reply::Policy(Ok(g))) => if g == *want { Ok(None) } else { Err(bad("returned a policy that is not the last one set (or the default)".to_string())) },
         (Expect::Peers(want), Reply::Peers(Ok(g))) => if g == *want { Ok(None) } else { Err(bad(format!("returned peers {:?}, the registrations so far give {:?} (most recent first, first id byte shown)", g.map(|v| v.iter().map(|p| p[0]).collect::<Vec<_>>()), want.as_ref().map(|v| v.iter().map(|p| p[0]).collect::<Vec<_>>())))) },
         (Expect::Count(n), Reply::Count(Ok(g))) | (Expect::Count(n), Reply::Msg(Ok(g))) => if g == *n { Ok(None) } else { Err(bad(format!("returned {g}, expected {n}"))) },
@@ -695,6 +749,8 @@ fn req_name(r: &Req) -> &'static str {
         Req::RegisterPeer { .. } => "register-peer",
         Req::GetPeers { .. } => "get-peers",
         Req::HasNews { .. } => "has-news",
+        Req::ListDocs => "list-docs",
+        Req::ListAuthors => "list-authors",
     }
 }
 
@@ -792,8 +848,9 @@ async fn run(plan: &ActorPlan, cx: &mut Cx, cap_focus: bool, removal_focus: bool
                 let mut stream_expect = None;
                 let mut expect = model_apply(&mut m, req, clock, &mut alive, &mut stream_expect, cx);
                 snapshots.push(m.iter().map(|d| d.doc.clone()).collect());
-                if matches!(req, Req::GetMany { .. }) && matches!(expect, Expect::Err) {
-                    // get_many only reports whether the request could be queued
+                if matches!(req, Req::GetMany { .. } | Req::ListDocs | Req::ListAuthors) && matches!(expect, Expect::Err) {
+                    // streaming requests only report whether the request could be queued; after a
+                    // shutdown their stream simply ends
                     expect = Expect::Any;
                 }
                 let was_alive_for_stream = alive;
@@ -849,6 +906,9 @@ async fn run(plan: &ActorPlan, cx: &mut Cx, cap_focus: bool, removal_focus: bool
                     if matches!(req, Req::Flush) && matches!(reply, Reply::Unit(Ok(()))) {
                         flushed_upto = flushed_upto.max(idx);
                     }
+                    // a list is streamed by a task of the actor; like a get-many stream it is cut
+                    // short, without an error, by a shutdown that follows it, and is then not judged
+                    let expect = if !alive && matches!(req, Req::ListDocs | Req::ListAuthors) { Expect::Any } else { expect };
                     if let Some(st) = check_reply_focus(idx, &req, &expect, reply, focus)? {
                         returned = Some(st);
                     }
